@@ -339,6 +339,11 @@ func (jenny RawTypes) generateFromJSONMethod(context languages.Context, object a
 }
 
 func (jenny RawTypes) fromJSONForType(context languages.Context, typeDef ast.Type, inputVar string, hint string) fromJSONCode {
+	return jenny.fromJSONForTypeRec(context, typeDef, inputVar, hint, make(map[string]struct{}))
+}
+
+// expanding holds the references being expanded: types can be recursive (`A: [...A]`).
+func (jenny RawTypes) fromJSONForTypeRec(context languages.Context, typeDef ast.Type, inputVar string, hint string, expanding map[string]struct{}) fromJSONCode {
 	if typeDef.IsRef() { //nolint:gocritic
 		resolvedType := context.ResolveRefs(typeDef)
 		if resolvedType.IsStruct() {
@@ -349,14 +354,27 @@ func (jenny RawTypes) fromJSONForType(context languages.Context, typeDef ast.Typ
 			}
 		}
 
-		return jenny.fromJSONForType(context, resolvedType, inputVar, hint+"_ref")
+		if resolvedType.IsRef() {
+			// the reference can't be resolved: leave the value as it is
+			return fromJSONCode{DecodingCall: inputVar}
+		}
+
+		if _, found := expanding[typeDef.Ref.String()]; found {
+			// recursive alias: leave the value as it is
+			return fromJSONCode{DecodingCall: inputVar}
+		}
+
+		expanding[typeDef.Ref.String()] = struct{}{}
+		defer delete(expanding, typeDef.Ref.String())
+
+		return jenny.fromJSONForTypeRec(context, resolvedType, inputVar, hint+"_ref", expanding)
 	} else if typeDef.IsArray() {
 		if typeDef.Array.IsArrayOf(ast.KindScalar) {
 			return fromJSONCode{DecodingCall: inputVar}
 		}
 
 		valueType := typeDef.Array.ValueType
-		valueTypeFromJSON := jenny.fromJSONForType(context, valueType, "item", hint+"_array")
+		valueTypeFromJSON := jenny.fromJSONForTypeRec(context, valueType, "item", hint+"_array", expanding)
 
 		return fromJSONCode{
 			Setup:        valueTypeFromJSON.Setup,
@@ -368,7 +386,7 @@ func (jenny RawTypes) fromJSONForType(context languages.Context, typeDef ast.Typ
 		}
 
 		valueType := typeDef.Map.ValueType
-		valueTypeFromJSON := jenny.fromJSONForType(context, valueType, inputVar+"[key]", hint+"_map")
+		valueTypeFromJSON := jenny.fromJSONForTypeRec(context, valueType, inputVar+"[key]", hint+"_map", expanding)
 
 		return fromJSONCode{
 			Setup:        valueTypeFromJSON.Setup,
